@@ -4,7 +4,7 @@ from __future__ import annotations
 
 import ast
 
-from .smt import (T, INT, BOOL, REAL, SEQI, TRUE, FALSE, I, And, Or, Not, Eq, Ne, Lt, Le, Add, Sub, Neg, Ite,
+from .smt import (T, INT, BOOL, REAL, SEQI, TRUE, FALSE, I, And, Or, Not, Eq, Ne, Lt, Le, Add, Sub, Neg, Ite, Implies,
                   seq_len, seq_concat, seq_unit, seq_empty, is_lit, lit_val)
 from .state import State, Out, Unsupported, Frame
 from .values import *
@@ -287,6 +287,8 @@ class CallMixin:
         res = []
         for o in outs:
             so = o.st.copy()
+            if self.depth == 0:
+                self.last_locals[id(so)] = dict(o.st.locals)
             so.locals, so.frame = saved
             if o.kind == "ok":
                 res.append(Out("ret", so, VNone))
@@ -473,6 +475,8 @@ class CallMixin:
             else:
                 res = self.fresh_value(post, c.returns, "res_" + c.qualname.split(".")[-1])
         names["result"] = res
+        for gname, (lv, gkind) in c.ghost_out.items():
+            names[gname] = self.fresh_value(post, gkind, "gout_" + gname)
         # exceptional outcomes
         iff_conds = []
         for r in c.raises:
@@ -633,10 +637,7 @@ class CallMixin:
         def got_iter(s2, it):
             items = self.static_items_of(s2, it)
             if items is None:
-                hk = self.reg.specfns.get("listcomp_symbolic")
-                if hk is not None:
-                    return hk(self, s2, e, it, k)
-                raise Unsupported(f"comprehension over a symbolic sequence at line {e.lineno}")
+                return self.listcomp_filter(s2, e, g, it, k)
             saved = dict(s2.locals)
 
             def step(s3, idx, acc):
@@ -674,6 +675,89 @@ class CallMixin:
                 return outs
             return step(s2, 0, [])
         return self.ev(st, g.iter, got_iter)
+
+    def comp_cond(self, st, g, x: Value):
+        """The comprehension's condition for element x as one Bool term (all outcomes must be exception-free)."""
+        # pure reading of the condition (no forking, no path-local facts); exception freedom of the condition is
+        # checked separately (once per comprehension) by the forking evaluation below
+        if getattr(self, "_comp_pure_ok", None) == id(g):
+            names = dict(st.locals)
+            names[g.target.id] = x
+            try:
+                return And(*[self.spec_bool(SpecEnv(st, names), c) for c in g.ifs])
+            except (Unsupported, RuntimeError):
+                pass
+        saved = dict(st.locals)
+        n0 = len(st.pc)
+        terms = []
+        for a in self.assign(st, g.target, x):
+            if a.kind != "ok":
+                raise Unsupported("comprehension target")
+
+            def conds(s4, ci, acc):
+                if ci == len(g.ifs):
+                    return [Out("ok", s4, acc)]
+                return self.ev(s4, g.ifs[ci], lambda s5, c: conds(s5, ci + 1, And(acc, self.truthy(s5, c))))
+            for o in conds(a.st, 0, TRUE):
+                if o.kind == "exc":
+                    # must be infeasible: an obligation, not an assumption
+                    self.oblige(o.st, FALSE, "raises", f"comprehension-condition-raises:{o.val.cls}")
+                    continue
+                if o.kind != "ok":
+                    raise Unsupported("comprehension condition outcome")
+                terms.append(And(*o.st.pc[n0:], o.val))
+        return Or(*terms)
+
+    def comp_instantiate(self, st, lst, w):
+        """membership characterisation of a comprehension result for one more witness term w"""
+        from .smt import seq_contains_elem
+        g, t, res, ek = lst.comp
+        self._comp_pure_ok = id(g)
+        c = self.comp_cond(st, g, from_comps(ek, [w]))
+        st.pc.append(Eq(seq_contains_elem(res, w), And(seq_contains_elem(t, w), c)))
+
+    def listcomp_filter(self, st, e, g, it, k):
+        """[x for x in xs if cond(x)] over a symbolic sequence: result = filter_c(xs) (uninterpreted, defined by snoc
+        recursion) with the membership characterisation instantiated for every witness in scope and for the first
+        elements of the result (lemma filter-membership, proved separately by induction)."""
+        if not (isinstance(e.elt, ast.Name) and isinstance(g.target, ast.Name) and e.elt.id == g.target.id):
+            raise Unsupported(f"comprehension with a computed element at line {e.lineno}")
+        t, ek = self.as_seq(st, it)
+        es = elem_sort(ek)
+        self.comp_counter = getattr(self, "comp_counter", 0) + 1
+        fname = f"filter_L{e.lineno}_{self.comp_counter}"
+        seqsort = f"(Seq {es})"
+        res = self.decls.fresh(fname, seqsort)
+        from .smt import seq_contains_elem, seq_nth
+        st = st.copy()
+        st.pc.append(Le(seq_len(res), seq_len(t)))
+        wit = []
+        for v in list(st.ghost.values()) + list(self.entry_names.values()) + list(st.locals.values()):
+            v = self.unwrap(v) if not isinstance(v, dict) else None
+            if v is not None and hasattr(v, "t") and v.t.sort == es and isinstance(v, (VRef, VInt, VAny)):
+                if isinstance(v, VRef) and not self.kind_fits(v, ek):
+                    continue
+                wit.append(v.t)
+        firsts = [seq_nth(res, I(0)), seq_nth(res, I(1))]
+        # exception freedom of the condition for an arbitrary element (obligations), then pure instantiations
+        arb = self.fresh_value(st, ek, "comp_elem")
+        self.comp_cond(st, g, arb)
+        self._comp_pure_ok = id(g)
+        for w in wit + firsts:
+            xv = from_comps(ek, [w])
+            guard = TRUE
+            if w in firsts:
+                idx = firsts.index(w)
+                guard = Lt(I(idx), seq_len(res))
+            self.add_ref_facts(st, xv) if w not in firsts else None
+            c = self.comp_cond(st, g, xv)
+            st.pc.append(Implies(guard, Eq(seq_contains_elem(res, w), And(seq_contains_elem(t, w), c))))
+            if w in firsts:
+                st.pc.append(Implies(guard, seq_contains_elem(res, w)))
+        s2, lst = self.new_list(st, ek, res)
+        lst.comp = (g, t, res, ek)
+        self.comprehensions_used = getattr(self, "comprehensions_used", set()) | {f"{self.cur_func_name}:L{e.lineno}"}
+        return k(s2, lst)
 
     def call_builtin_method(self, st, base, name, args, kwargs, k, where):
         from . import models
